@@ -109,12 +109,15 @@ def fold_atoms(base: Alphabet, kinds: set) -> list:
     return atoms
 
 
-def build_alphabet(patterns: list[tuple[str, int]], extra_chars: str, fold_kinds: set | None = None) -> Alphabet:
+def build_alphabet(patterns: list[tuple[str, int]], extra_chars: str, fold_kinds: set | None = None, char_sets: list | None = None) -> Alphabet:
     atoms: list = []
     for p, fl in patterns:
         collect_atoms(P.parse(p, fl), atoms)
     for ch in extra_chars:
         atoms.append([(ord(ch), ord(ch))])
+    for cs in char_sets or ():
+        if cs:
+            atoms.append(sorted({(ord(c), ord(c)) for c in cs}))
     from .relang import category_intervals
 
     atoms.append(list(category_intervals("space")))
@@ -198,6 +201,9 @@ class StrLang:
         elif kind == "rhead":
             r = L.concat(lang, D, NOD)
             here = union(r, NOD) if eps_in else r
+        elif kind == "septail":
+            # the part from the first d on (d included); a string without d is seen whole (position -1 counts as 0)
+            here = union(L.concat(NOD, inter(lang, L.startswith(d))), inter(NOD, lang))
         elif kind in ("sep", "rsep"):
             has_d = lang.accepts([self.alpha.cls_of(d)])
             r = L.contains(d) if has_d else L.EMPTY
@@ -218,10 +224,26 @@ class StrLang:
         node = fn.node
         params = [a.arg for a in node.args.args + node.args.kwonlyargs]
         bound = dict(consts)
-        free = [p for p in params if p not in bound]
+        # integer parameters with a constant default (a start position) take that default unless bound by the caller
+        defaults = dict(zip(reversed([a.arg for a in node.args.args]), reversed(node.args.defaults)))
+        defaults.update({a.arg: d for a, d in zip(node.args.kwonlyargs, node.args.kw_defaults) if d is not None})
+        posviews = {}
+        for pname, val in list(bound.items()):
+            if isinstance(val, tuple) and val and val[0] in ("idx", "idxafter", "posconst"):
+                posviews[pname] = val
+                del bound[pname]
+        for pname in params:
+            d0 = defaults.get(pname)
+            if pname not in bound and pname not in posviews and isinstance(d0, ast.Constant) and isinstance(d0.value, int) and not isinstance(d0.value, bool):
+                posviews[pname] = ("posconst", d0.value)
+        free = [p for p in params if p not in bound and p not in posviews]
         if len(free) != 1:
             raise Unsupported(f"{fname} does not take exactly one string parameter")
         views = {free[0]: ("whole",)}
+        if any(v[0] != "posconst" for v in posviews.values()):
+            # position views refer to the caller's string: re-anchor them on this function's parameter
+            posviews = {k: ((v[0], v[1], ("whole",), free[0]) if v[0] in ("idx", "idxafter") else v) for k, v in posviews.items()}
+        views.update(posviews)
         saved = (dict(self.regexes), dict(self.strings))
         for pname, cname in bound.items():
             if cname in saved[0]:
@@ -458,6 +480,26 @@ class StrLang:
         if w is not None:
             raise Raises(f"{what} (e.g. for {self.alpha.word(w)!r}): the validator would raise instead of answering", bad)
 
+    def _pos_of(self, e, views):
+        """A position expression: ('idx', d, view, name) = s.find(d); ('idxafter', ..) = s.find(d) + len(d); ('posconst', k)."""
+        if isinstance(e, ast.Constant) and isinstance(e.value, int) and not isinstance(e.value, bool):
+            return ("posconst", e.value)
+        if isinstance(e, ast.Name) and e.id in views and views[e.id][0] in ("idx", "idxafter", "posconst"):
+            return views[e.id]
+        if isinstance(e, ast.BinOp) and isinstance(e.op, ast.Add):
+            for a, b in ((e.left, e.right), (e.right, e.left)):
+                pa = self._pos_of(a, views)
+                if pa is not None and pa[0] == "idx":
+                    if isinstance(b, ast.Constant) and b.value == len(pa[1]):
+                        return ("idxafter",) + pa[1:]
+                    if isinstance(b, ast.Call) and isinstance(b.func, ast.Name) and b.func.id == "len" and len(b.args) == 1:
+                        try:
+                            if self._const_str(b.args[0]) == pa[1]:
+                                return ("idxafter",) + pa[1:]
+                        except Unsupported:
+                            pass
+        return None
+
     def _split1(self, v, views):
         """``s.split(d, 1)`` (or a name bound to it): ('split1', d, view of s)."""
         if isinstance(v, ast.Name) and v.id in views and views[v.id][0] == "split1":
@@ -488,7 +530,7 @@ class StrLang:
                 raise Unsupported(f"str.{e.func.attr}() view without a fold-uniform alphabet")
             return ("fold", e.func.attr, self._view_of(e.func.value, views))
         if isinstance(e, ast.Name) and e.id in views:
-            if views[e.id][0] in ("truth", "idx"):
+            if views[e.id][0] in ("truth", "idx", "idxafter", "posconst"):
                 raise Unsupported(f"`{e.id}` is not a string")
             return views[e.id]
         if isinstance(e, ast.Subscript) and isinstance(e.slice, ast.Slice) and isinstance(e.value, ast.Name) and e.value.id in views and e.slice.step is None:
@@ -598,8 +640,13 @@ class StrLang:
                 if len(names) == len(e.args):
                     consts, sarg = [], None
                     for pname, a in zip(names, e.args):
+                        pv = self._pos_of(a, views)
                         if isinstance(a, ast.Name) and (a.id in self.regexes or a.id in self.strings) and a.id not in views:
                             consts.append((pname, a.id))
+                        elif pv is not None:
+                            consts.append((pname, pv[:2] if pv[0] != "posconst" else pv))
+                            if pv[0] != "posconst" and sarg not in (None, False) and not (isinstance(sarg, ast.Name) and sarg.id == pv[3]):
+                                sarg = False
                         elif sarg is None:
                             sarg = a
                         else:
@@ -630,6 +677,36 @@ class StrLang:
                 elif len(e.args) == 1:
                     pat, fl = self._pattern(f.value)
                     arg = e.args[0]
+                elif len(e.args) in (2, 3) and isinstance(e.args[0], ast.Name) and e.args[0].id in views:
+                    # compiled.fullmatch(s, pos[, endpos]): the slice s[pos:endpos] is matched ($ holds at endpos; ^ only at 0)
+                    pat, fl = self._pattern(f.value)
+                    sname = e.args[0].id
+                    start = self._pos_of(e.args[1], views)
+                    end = self._pos_of(e.args[2], views) if len(e.args) == 3 else None
+                    is_len = len(e.args) == 3 and isinstance(e.args[2], ast.Call) and isinstance(e.args[2].func, ast.Name) and e.args[2].func.id == "len" and len(e.args[2].args) == 1 and isinstance(e.args[2].args[0], ast.Name) and e.args[2].args[0].id == sname
+                    if start is None or (len(e.args) == 3 and end is None and not is_len):
+                        raise Unsupported(f"match position `{ast.unparse(e)[:60]}`")
+                    for pv in (start, end):
+                        if pv is not None and pv[0] != "posconst" and pv[3] != sname:
+                            raise Unsupported("match position computed on another string")
+                    base = views[sname]
+                    zero = start[0] == "posconst" and start[1] == 0
+                    if start[0] == "posconst" and start[1] != 0 or (end is not None and end[0] == "posconst"):
+                        raise Unsupported("constant match position other than 0")
+                    if not zero and pat.startswith("^"):
+                        raise Unsupported("'^' with a start position other than 0")
+                    if zero and end is None:
+                        view = base
+                    elif zero and end[0] == "idx":
+                        view = ("head", end[1], base)
+                    elif end is None and start[0] == "idxafter":
+                        view = ("tail", start[1], base)
+                    elif end is None and start[0] == "idx":
+                        view = ("septail", start[1], base)
+                    else:
+                        raise Unsupported(f"match window `{ast.unparse(e)[:60]}`")
+                    self.used.append(f"{f.attr}:{pat}")
+                    return self.lift(self.L.regex(pat, f.attr, fl), view)
                 else:
                     raise Unsupported(ast.unparse(e)[:60])
                 self.used.append(f"{f.attr}:{pat}")
@@ -646,6 +723,29 @@ class StrLang:
                     return self.lift(L.startswith(self._const_str(e.args[0])), v)
                 if f.attr == "endswith" and len(e.args) == 1:
                     return self.lift(L.endswith(self._const_str(e.args[0])), v)
+        if isinstance(e, ast.Call) and isinstance(e.func, ast.Attribute) and e.func.attr in ("issuperset", "__ge__") and len(e.args) == 1 and not e.keywords:
+            # CHARS.issuperset(s): every character of s is one of CHARS
+            arg = e.args[0]
+            if isinstance(arg, ast.Call) and isinstance(arg.func, ast.Name) and arg.func.id in ("set", "frozenset") and len(arg.args) == 1:
+                arg = arg.args[0]
+            if isinstance(arg, ast.Name) and arg.id in views:
+                cls = self.alpha.classes_of_chars(self._char_set(e.func.value))
+                return self.lift(L.star(cls), views[arg.id])
+        if isinstance(e, ast.Compare) and len(e.ops) == 1 and isinstance(e.ops[0], (ast.In, ast.NotIn)) and isinstance(e.left, ast.Subscript) and isinstance(e.left.value, ast.Name) and e.left.value.id in views and isinstance(e.left.slice, ast.Slice) and e.left.slice.lower is None and e.left.slice.step is None and isinstance(e.left.slice.upper, ast.Constant) and e.left.slice.upper.value == 1:
+            # s[:1] in CHARS: the first character (or '' for the empty string) is a member
+            right = e.comparators[0]
+            substring = False
+            try:
+                chars = self._const_str(right)
+                substring = True  # membership in a str is the substring test: '' in "abc" holds
+            except Unsupported:
+                chars = self._char_set(right)
+            cls = self.alpha.classes_of_chars(chars)
+            r = L.concat(L.sym(cls), L.SIGMA_STAR)
+            if substring:
+                r = union(r, L.EPS)
+            r = self.lift(r, views[e.left.value.id])
+            return complement(r) if isinstance(e.ops[0], ast.NotIn) else r
         if isinstance(e, ast.Call) and isinstance(e.func, ast.Attribute) and e.func.attr in ("issubset", "__le__") and len(e.args) == 1 and not e.keywords and isinstance(e.args[0], ast.Name) and e.args[0].id in views:
             # CHARS.issubset(s): EVERY character of CHARS occurs in s
             acc = L.SIGMA_STAR
